@@ -30,8 +30,17 @@ static bool check_sequence(const zp::Zone& z, const zp::Handle& h, const std::ve
   return true;
 }
 
-static std::vector<Pt> sequence_for(const zm::Model& m, const zp::Anchors& an) {
+static std::vector<Pt> sequence_for(const zm::Model& m, const zp::Anchors& an, uint64_t zh) {
   std::vector<Pt> pts;
+  // calendar seams far from any offset change: the turn of the year and the end of February of 64 years per zone
+  // (chosen by the zone's bytes in -20000..20000, so that over all zones every position in the 400-year cycle, on
+  // both sides of year 0, is visited many times)
+  for (int k = 0; k < 64; ++k) {
+    const int64_t y = (int64_t)(vf::splitmix(zh + (uint64_t)k * 0x9e3779b97f4a7c15ULL) % 40001) - 20000;
+    for (i128 x : {refcal::to_secs(refcal::Civil{y - 1, 12, 31, 23, 59, 59}), refcal::to_secs(refcal::Civil{y, 2, 28, 23, 59, 59}), refcal::to_secs(refcal::Civil{y, 3, 1, 0, 0, 0}) - 1}) {
+      pts.push_back(Pt{x, false}); pts.push_back(Pt{x + 1, false});  // the last second before the seam and the first after it
+    }
+  }
   for (const zo::CivilPoint& cp : zo::civil_points(m, an)) {
     pts.push_back(Pt{cp.csecs, cp.nontrivial});
     pts.push_back(Pt{cp.csecs + 1, cp.nontrivial});  // adjacent pair (cs, cs+1)
@@ -45,7 +54,7 @@ static bool check_zone(const zp::Zone& z, zp::Handle& h, bool in_rc, bool full, 
   fc->set("sweep", full ? "full" : "thin");
   if (!h.ok) return true;
   const zp::Anchors an = zp::anchors_for(z.model, full);
-  std::vector<Pt> pts = sequence_for(z.model, an);
+  std::vector<Pt> pts = sequence_for(z.model, an, vf::fnv(z.bytes));
   if (in_rc) {
     // mix in generated civil times, then sort again; also walk a shuffled-by-generation descending copy
     int n = *vf::range<int>(8, 40);
@@ -97,7 +106,7 @@ static void run(const vf::Args& a, vf::Evidence& ev, vf::Reporter& rep) {
   EV = &ev; zo::ARGS = &a;
   ev.rule = "zones as in C01. For each zone one sorted, duplicate-free sequence of civil seconds: for every table entry "
             "(recorded, each of the 403 rule years, 400-year images, last representable year) the gap/overlap interior, "
-            "edges +-2 s, +-1 day, each with its successor second (adjacent pairs), civil_second::min()/max() +- k, plus "
+            "edges +-2 s, +-1 day, each with its successor second (adjacent pairs), civil_second::min()/max() +- k, the turn of the year and the end of February of 64 years in -20000..20000, plus "
             "generated civil times; convert() must be non-decreasing along the ascending walk and the descending re-walk. "
             "Non-trivial pair = touches a gap/overlap neighbourhood, the seam/far years or a saturated end; distinct by (zone, pair).";
   zc::Ctx c{&a, &ev, &rep};
